@@ -134,7 +134,7 @@ def validate(name, trace_path, nproc=8):
 
 
 MUTATING = {'AddResource', 'AddDataset', 'AddKey', 'InsertData', 'Annotate', 'RemoveAnnotation', 'RemoveResource',
-            'RemoveDataset', 'RemoveData', 'RemoveKey', 'StripAnnotationIds', 'StripDataIds', 'ShrinkToFit', 'RoundTrip', 'ProtectText'}
+            'RemoveDataset', 'RemoveData', 'RemoveKey', 'StripAnnotationIds', 'StripDataIds', 'ShrinkToFit', 'RoundTrip', 'ProtectText', 'Transpose'}
 
 
 # ---------------------------------------------------------------------------------------------
@@ -224,6 +224,8 @@ def attribute(m, diffs):
         if rec['a'].get('edit', {}).get('has'):
             return {'C18'}
         return {dict(json='C05', cbor='C11', csv='C15')[rec['a']['format']]}
+    if ev == 'Transpose':
+        return {'C16'}
     expected_err = exp.get('outcome') in ('err', 'either')
     if expected_err and ev not in REMOVALS:
         if rec['outcome'] == 'ok' and exp.get('outcome') == 'err':
